@@ -29,7 +29,7 @@ no-op.  Everything else is refused with file:line.
 import re
 
 from x2l_ast import Unsupported, is_expr
-from x2l_tr import E, Env, Item, SEM, T_BOOL, T_VOID, Ty, conj, ident, is_true_blk, PASS_THROUGH, RECORD_KINDS
+from x2l_tr import E, Env, Item, SEM, T_BOOL, T_VOID, Ty, conj, ident, is_true_blk, is_ostr_type, PASS_THROUGH, RECORD_KINDS
 from x2l_ex import FullTranslator, paren, fits
 
 ASSIGN_KINDS = ('CompoundAssignOperator',)
@@ -248,9 +248,23 @@ class ImpTranslator(FullTranslator):
             return None
         if env.in_loop is not None:
             self.bad(n, 'call of a function with effects inside a loop body')
-        args = [self.ex(a, env) for a in argn]
-        if len(args) != len(it.cparams):
-            self.bad(n, 'call with %d arguments to a function translated with %d parameters (default arguments?)' % (len(args), len(it.cparams)))
+        if len(argn) != len(it.cparams):
+            self.bad(n, 'call with %d arguments to a function translated with %d parameters (default arguments?)' % (len(argn), len(it.cparams)))
+        args, special = [], {}
+        for i_, (a, (pn, pt)) in enumerate(zip(argn, it.cparams)):
+            loc = self.addr_of_local(a, env) if pt.kind == 'pptr' else None
+            if pt.kind == 'ostr':
+                vid = self.ostr_var(a, env)
+                if vid is None:
+                    self.bad(a, 'the output-string argument is not an output string of the caller (a `std::string&` parameter / local '
+                                '`std::string`, or `std::back_inserter` of one)')
+                special[i_] = ('ostr', vid)
+                args.append(E(env.vars[vid][0], pt))
+            elif loc is not None:
+                special[i_] = ('addr', loc)
+                args.append(E(env.vars[loc][0], Ty('pptr', 8, env.vars[loc][1].signed), None))
+            else:
+                args.append(self.ex(a, env))
         for a, (pn, pt) in zip(args, it.cparams):
             if a.ty.kind != pt.kind or (pt.kind == 'int' and (a.ty.w, a.ty.signed) != (pt.w, pt.signed)) or \
                     (pt.kind == 'rec' and a.ty.rec['id'] != pt.rec['id']):
@@ -280,7 +294,139 @@ class ImpTranslator(FullTranslator):
         env.fx.calls_fx = True
         argt = ''.join(' ' + p for p in pre) + ''.join(' ' + paren(a.term) for a in args)
         dd = conj(*([a.defd for a in args] + [None if it.defd_trivial else '%s_defined%s' % (it.full, argt)]))
-        return {'term': it.full + argt, 'put': put, 'ret': it.ret, 'defd': dd, 'node': n, 'item': it, 'argn': argn}
+        return {'term': it.full + argt, 'put': put, 'ret': it.ret, 'defd': dd, 'node': n, 'item': it, 'argn': argn, 'special': special}
+
+    # ---- output strings (phase 4) -----------------------------------------------------------------
+    # A `std::string& result` parameter, a by-value `std::back_insert_iterator<std::string>` parameter or a local
+    # `std::string` that is only APPENDED to is an output byte list (`CxxSem.Buf`), versioned like a local; a parameter of
+    # that kind is part of the state σ of the Outcome.  Nothing but size() / empty() may read it.
+
+    def ostr_var(self, n, env):
+        """the decl id if n denotes an output string of this function: the variable, `std::back_inserter(var)`, a copy of the iterator"""
+        n = strip(n)
+        while n.get('kind') == 'ImplicitCastExpr' and n.get('castKind') in ('LValueToRValue', 'NoOp'):
+            n = strip(n['inner'][0])
+        k = n.get('kind')
+        if k == 'DeclRefExpr':
+            rid = n['referencedDecl']['id']
+            if rid in env.vars and env.vars[rid][1].kind == 'ostr':
+                return rid
+            return None
+        if k == 'CallExpr' and len(n.get('inner', [])) == 2:
+            c = self.callee(n['inner'][0])
+            r = c.get('referencedDecl') or {}
+            if c.get('kind') == 'DeclRefExpr' and r.get('name') == 'back_inserter' and r.get('id') not in self.ix.by_id:
+                vid = self.ostr_var(n['inner'][1], env)
+                if vid is not None and not self.is_iter_decl(vid):
+                    return vid
+            return None
+        if k == 'CXXConstructExpr' and len(n.get('inner', [])) == 1 and \
+                'back_insert_iterator' in (n['type'].get('desugaredQualType') or n['type'].get('qualType', '')):
+            return self.ostr_var(n['inner'][0], env)              # copy of the iterator: it denotes the same string
+        return None
+
+    def is_iter_decl(self, vid):
+        d = self.ix.by_id.get(vid) or {}
+        return 'back_insert_iterator' in (d.get('type', {}).get('desugaredQualType') or d.get('type', {}).get('qualType', ''))
+
+    def addr_of_local(self, a, env):
+        """the decl id if a is `&s` with `s` a local `const char*` of this function (handed to a callee as ITS cursor cell)"""
+        a = strip(a)
+        if a.get('kind') == 'UnaryOperator' and a.get('opcode') == '&':
+            t = strip(a['inner'][0])
+            if t.get('kind') == 'DeclRefExpr':
+                rid = t['referencedDecl']['id']
+                d = self.ix.by_id.get(rid) or {}
+                if rid in env.vars and env.vars[rid][1].kind == 'ptr' and d.get('kind') == 'VarDecl' and rid != env.fx.cell:
+                    return rid
+        return None
+
+    @staticmethod
+    def op_name(n):
+        """name of the operator function a CXXOperatorCallExpr calls"""
+        c = n['inner'][0]
+        while c.get('kind') in ('ImplicitCastExpr', 'ParenExpr'):
+            c = c['inner'][0]
+        return (c.get('referencedDecl') or {}).get('name')
+
+    def byte_of(self, a, env, n):
+        e = self.ex(a, env)
+        if e.ty.kind != 'int' or e.ty.w != 8:
+            self.bad(n, 'value of type %r appended to an output string (only `char`)' % e.ty)
+        return e
+
+    def lit_bytes(self, a):
+        """the bytes of a string literal argument (`const char*` decayed from a literal), or None"""
+        a = strip(a)
+        while a.get('kind') == 'ImplicitCastExpr' and a.get('castKind') in ('ArrayToPointerDecay', 'NoOp'):
+            a = strip(a['inner'][0])
+        if a.get('kind') != 'StringLiteral':
+            return None
+        v = a.get('value', '')
+        try:
+            import ast as _ast
+            raw = _ast.literal_eval(v) if not v.startswith('u8') else None
+        except (ValueError, SyntaxError):
+            raw = None
+        if not isinstance(raw, str) or any(ord(ch) > 127 for ch in raw):
+            self.bad(a, 'string literal %s (only plain ASCII literals)' % v[:40])
+        return '[' + ', '.join(str(ord(ch)) for ch in raw) + ']'
+
+    def ostr_op(self, s, env):
+        """an append-only operation on an output string as a statement -> (var id, new value term, definedness) or None"""
+        k = s.get('kind')
+        if k == 'CXXOperatorCallExpr':
+            op = self.op_name(s)
+            inn = s.get('inner', [])
+            if op == '+=' or op == 'operator+=':
+                vid = self.ostr_var(inn[1], env) if len(inn) == 3 else None
+                if vid is None or self.is_iter_decl(vid):
+                    return None
+                lit = self.lit_bytes(inn[2]) if (inn[2].get('type', {}).get('qualType', '').count('*') == 1) else None
+                if lit is not None:
+                    return vid, '%s ++ %s' % (env.vars[vid][0], lit), None
+                e = self.byte_of(inn[2], env, s)
+                return vid, '%spush %s %s' % (SEM, env.vars[vid][0], paren(e.term)), e.defd
+            if op == 'operator=' and len(inn) == 3:
+                # `*out = c`, `*out++ = c`, `*(out++) = c`, `*++out = c` on a back_insert_iterator: all append c
+                t = strip(inn[1])
+                seen_star = False
+                while t.get('kind') == 'CXXOperatorCallExpr' and self.op_name(t) in ('operator*', 'operator++'):
+                    seen_star = seen_star or self.op_name(t) == 'operator*'
+                    t = strip(t['inner'][1])
+                vid = self.ostr_var(t, env)
+                if vid is None or not self.is_iter_decl(vid) or not seen_star:
+                    return None
+                e = self.byte_of(inn[2], env, s)
+                return vid, '%spush %s %s' % (SEM, env.vars[vid][0], paren(e.term)), e.defd
+            return None
+        if k == 'CXXMemberCallExpr':
+            me = strip(s['inner'][0])
+            if me.get('kind') != 'MemberExpr':
+                return None
+            vid = self.ostr_var(me['inner'][0], env)
+            if vid is None or self.is_iter_decl(vid):
+                return None
+            nm, argn = me.get('name'), s['inner'][1:]
+            cur = env.vars[vid][0]
+            if nm == 'push_back' and len(argn) == 1:
+                e = self.byte_of(argn[0], env, s)
+                return vid, '%spush %s %s' % (SEM, cur, paren(e.term)), e.defd
+            if nm == 'clear' and not argn:
+                return vid, '([] : %sBuf)' % SEM, None
+            if nm == 'append' and len(argn) == 2:
+                a, b = self.ex(argn[0], env), self.ex(argn[1], env)
+                if a.ty.kind == 'ptr' and b.ty.kind == 'ptr':          # append(first, last): the bytes [first, last) of the input array
+                    return vid, '%s ++ %sslice buf %s %s' % (cur, SEM, paren(a.term), paren(b.term)), \
+                        conj(a.defd, b.defd, '%ssliceOk buf %s %s' % (SEM, paren(a.term), paren(b.term)))
+                if a.ty.kind == 'ptr' and b.ty.kind == 'int' and b.ty.w is not None and not b.ty.signed:   # append(p, n)
+                    end = '%s + %s' % (paren(a.term), paren(b.term))
+                    return vid, '%s ++ %sslice buf %s (%s)' % (cur, SEM, paren(a.term), end), \
+                        conj(a.defd, b.defd, '%ssliceOk buf %s (%s)' % (SEM, paren(a.term), end))
+            if nm in ('size', 'length', 'empty'):
+                return None
+            self.bad(s, 'operation `%s` on an output string (only += char / literal, push_back, append(p, n), append(first, last), clear)' % nm)
+        return None
 
     def bind_call(self, call, env, s, fn, k):
         """k(env, E of the result) -> (val, dfd) for the rest"""
@@ -755,19 +901,22 @@ class ImpTranslator(FullTranslator):
                 q = x.get('type', {}).get('desugaredQualType') or x.get('type', {}).get('qualType', '')
                 if '*' in q and re.search(r'\bchar\b', q) and '(' not in q:
                     return True
+                if x.get('kind') == 'ParmVarDecl' and x.get('_parent', fn) is fn and is_ostr_type(q):
+                    return True
         return False
 
-    def always_exits(self, stmts):
+    def always_exits(self, stmts, brk=False):
+        """brk: a `break` at this nesting level leaves the enclosing LOOP (join style), which also ends the statement list"""
         for st in stmts:
             st = strip(st) if st.get('kind') in PASS_THROUGH else st
             k = st.get('kind')
-            if k in self.EXIT_KINDS:
+            if k in self.EXIT_KINDS or (brk and k == 'BreakStmt'):
                 return True
-            if k == 'CompoundStmt' and self.always_exits(st.get('inner', [])):
+            if k == 'CompoundStmt' and self.always_exits(st.get('inner', []), brk):
                 return True
             if k == 'IfStmt':
                 inn = st.get('inner', [])
-                if len(inn) == 3 and self.always_exits([inn[1]]) and self.always_exits([inn[2]]):
+                if len(inn) == 3 and self.always_exits([inn[1]], brk) and self.always_exits([inn[2]], brk):
                     return True
         return False
 
@@ -798,6 +947,13 @@ class ImpTranslator(FullTranslator):
                     for a in x.get('inner', []):
                         if a and self.cell_ref(a, env) is not None and self.resolve_arg_is_pptr(a):
                             tgt.append(env.fx.cell)
+                        if a and k != 'CXXConstructExpr':
+                            tgt.append(self.ostr_var(a, env))          # an output string handed to a call / operator: appended to
+                            tgt.append(self.addr_of_local(a, env))     # `&s`: the callee moves the local cursor
+                    if k == 'CXXMemberCallExpr':
+                        me = strip(x['inner'][0])
+                        if me.get('kind') == 'MemberExpr' and me.get('name') not in ('size', 'length', 'empty'):
+                            tgt.append(self.ostr_var(me['inner'][0], env))
                 for t in tgt:
                     if t is not None and t in env.vars and t not in keys:
                         keys.append(t)
@@ -812,11 +968,18 @@ class ImpTranslator(FullTranslator):
         return ((self.ix.by_id.get(rid) or {}).get('range', {}).get('begin', {}) or {}).get('offset', 0)
 
     def state_term(self, env):
-        if env.fx.cell is not None:
-            if env.fx.cell not in env.vars:
-                raise Unsupported('the cursor cell is not visible where the function returns / throws')
-            return env.vars[env.fx.cell][0]
-        return '()'
+        parts = []
+        for key, what in ((env.fx.cell, 'cursor cell'), (env.fx.ostr, 'output string')):
+            if key is not None:
+                if key not in env.vars:
+                    raise Unsupported('the %s is not visible where the function returns / throws' % what)
+                parts.append(env.vars[key][0])
+        return self.jtuple(parts)
+
+    @staticmethod
+    def state_ty_str(fx):
+        """σ of a join-style function: the cursor cell (Int) and / or the output string (Buf)"""
+        return ' × '.join((['Int'] if fx.cell is not None else []) + ([SEM + 'Buf'] if fx.ostr is not None else [])) or 'Unit'
 
     def find_hoist(self, s, env):
         """postfix `x++` / `x--` inside the assignment statement s that can be evaluated as the old value of x with the
@@ -870,6 +1033,9 @@ class ImpTranslator(FullTranslator):
             if not s.get('inner'):
                 if not self.is_void(fn):
                     self.bad(s, 'return without a value')
+                env.ret_ty = T_VOID
+                return self.jleaf(mode, 'normal', env, '()'), ('ret', 'true')
+            if self.ostr_var(s['inner'][0], env) is not None:      # `return out;` of an output iterator: the same string
                 env.ret_ty = T_VOID
                 return self.jleaf(mode, 'normal', env, '()'), ('ret', 'true')
             call = self.fx_call(s['inner'][0], env)
@@ -933,11 +1099,25 @@ class ImpTranslator(FullTranslator):
             for i_, x in enumerate(rest):
                 if x is END_SWITCH:
                     return self.jblock(rest[i_ + 1:], env, fn, mode, tail)
-            self.bad(s, 'break outside a switch (break out of loops is not translated)')
+            if env.brk is not None:
+                return env.brk(env)                    # leaves the enclosing loop with the current variables
+            self.bad(s, 'break out of a loop from inside a branch that is merged (only at the flow level of the loop body)')
         if k == 'SwitchStmt':
             return self.jswitch(s, rest, env, fn, mode, tail)
         if k in ('WhileStmt', 'ForStmt', 'DoStmt', '_For'):
             return self.jloop_stmt(s, rest, env, fn, mode, tail)
+        oo = self.ostr_op(s, env) if is_expr(s) else None
+        if oo is not None:
+            vid, term, od = oo
+            old, ty = env.vars[vid]
+            nm = env.fresh(re.sub(r'_\d+$', '', old))
+            env.vars[vid] = (nm, ty)
+            env.fx.writes = True
+            lt = self.lean_ty(ty, s)
+            val, dfd = self.jblock(rest, env, fn, mode, tail)
+            val = ('lett', nm, lt, term, val)
+            dfd = dfd if is_true_blk(dfd) else ('lett', nm, lt, term, dfd)
+            return val, (('and', od, dfd) if od else dfd)
         hoist = self.find_hoist(s, env)
         for h in hoist:
             env.hoisted[h['id']] = True
@@ -993,6 +1173,8 @@ class ImpTranslator(FullTranslator):
         if it.state_ty is not None:
             self.bad(s, 'call of a member function with effects in a function translated in join style')
         cell = env.fx.cell
+        if call.get('special') or getattr(it, 'ostr', False):
+            return self.jcall_via(call, env, fn, mode, s, k)
         if getattr(it, 'cell', False):
             passed = [a for a, (pn, pt) in zip(call['argn'], it.cparams) if pt.kind == 'pptr']
             if cell is None or len(passed) != 1 or self.cell_ref(passed[0], env) is None or not self.resolve_arg_is_pptr(passed[0]):
@@ -1014,6 +1196,56 @@ class ImpTranslator(FullTranslator):
         else:
             v = ('jcallf', call['term'], sn, rn, val)
         d = ('bindB', call['term'], put, sn, rn, dfd)
+        if call['defd']:
+            d = ('and', call['defd'], d)
+        return v, d
+
+    def jcall_via(self, call, env, fn, mode, s, k):
+        """a call whose callee state τ = (its cursor cell, its output string) is bound to VARIABLES of the caller: the cell to the
+        caller's own `const char**` parameter or to a local cursor handed over as `&s`, the string to an output string of the
+        caller; `put : τ → σ` says what the caller's state is when the callee throws"""
+        it = call['item']
+        comps = []                                     # (target var id in the caller)
+        if getattr(it, 'cell', False):
+            idx = [i_ for i_, (pn, pt) in enumerate(it.cparams) if pt.kind == 'pptr']
+            if len(idx) != 1:
+                self.bad(s, 'callee with %d `const char**` parameters' % len(idx))
+            sp = call['special'].get(idx[0])
+            if sp is not None:
+                comps.append(sp[1])
+            else:
+                a = call['argn'][idx[0]]
+                if env.fx.cell is None or self.cell_ref(a, env) is None or not self.resolve_arg_is_pptr(a):
+                    self.bad(s, 'the `const char**` argument of the call is neither the `const char**` parameter of the caller nor `&local`')
+                comps.append(env.fx.cell)
+        if getattr(it, 'ostr', False):
+            idx = [i_ for i_, (pn, pt) in enumerate(it.cparams) if pt.kind == 'ostr']
+            if len(idx) != 1 or call['special'].get(idx[0]) is None:
+                self.bad(s, 'callee with %d output strings' % len(idx))
+            comps.append(call['special'][idx[0]][1])
+        if len(set(comps)) != len(comps) or not comps:
+            self.bad(s, 'call whose state components are not distinct variables of the caller')
+        env.fx.calls_fx = True
+        sn, rn = env.fresh('st'), env.fresh('r')
+        projs = [sn] if len(comps) == 1 else ['%s.%d' % (sn, i_ + 1) for i_ in range(len(comps))]
+        tmp = env.copy()
+        for vid, pj in zip(comps, ['t_'] if len(comps) == 1 else ['t_.%d' % (i_ + 1) for i_ in range(len(comps))]):
+            tmp.vars[vid] = (pj, env.vars[vid][1])
+        put = 'fun t_ => %s' % self.state_term(tmp)
+        lets = []
+        for vid, pj in zip(comps, projs):
+            old, ty = env.vars[vid]
+            nm = env.fresh(re.sub(r'_\d+$', '', old))
+            env.vars[vid] = (nm, ty)
+            lets.append((nm, self.lean_ty(ty, s), pj))
+        env.fx.writes = True
+        res = E(rn, call['ret']) if call['ret'] is not None and call['ret'].kind != 'void' else None
+        val, dfd = k(env, res)
+        for nm, lt, pj in reversed(lets):
+            val = ('lett', nm, lt, pj, val)
+            dfd = dfd if is_true_blk(dfd) else ('lett', nm, lt, pj, dfd)
+        v = ('bindvia' if mode == 'out' else 'jcallvia', call['term'], put, sn, rn, val)
+        d = ('bindB', call['term'], 'fun t_ => t_', sn, rn, dfd)
         if call['defd']:
             d = ('and', call['defd'], d)
         return v, d
@@ -1066,7 +1298,8 @@ class ImpTranslator(FullTranslator):
         if c.ty.kind != 'bool':
             self.bad(s, 'condition is not of type bool')
         A, B = [inn[1]], ([inn[2]] if len(inn) > 2 else [])
-        ea, eb = self.always_exits(A), self.always_exits(B)
+        brk_ok = env.brk is not None and not any(x is END_SWITCH for x in rest)
+        ea, eb = self.always_exits(A, brk_ok), self.always_exits(B, brk_ok)
 
         def guard(dfd):
             return ('and', c.defd, dfd) if c.defd else dfd
@@ -1079,8 +1312,10 @@ class ImpTranslator(FullTranslator):
 
         def t_next(e2):
             return ('jnext', self.jnames(keys, e2)), ('ret', 'true')
-        tv, td = self.jblock(A, env.copy(), fn, 'flow', t_next)
-        ev, ed = self.jblock(B, env.copy(), fn, 'flow', t_next)
+        menv = env.copy()
+        menv.brk = None                                # a `break` inside a merged branch would have to skip the merge: refused
+        tv, td = self.jblock(A, menv.copy(), fn, 'flow', t_next)
+        ev, ed = self.jblock(B, menv.copy(), fn, 'flow', t_next)
         names = self.jrebind(keys, env)
         rv, rd = self.jrest(rest, env, fn, mode, tail)
         bd = ('ret', 'true') if is_true_blk(td) and is_true_blk(ed) else ('if', c.term, td, ed)
@@ -1090,7 +1325,7 @@ class ImpTranslator(FullTranslator):
             dfd = ('conj', [bd, ('ret', 'true') if is_true_blk(rd) else ('letp', names, merged, rd)])
         else:
             env.fx.flow = True
-            fty = '%sFlow %s (%s) «rho»' % (SEM, 'Int' if env.fx.cell is not None else 'Unit',
+            fty = '%sFlow %s (%s) «rho»' % (SEM, paren(self.state_ty_str(env.fx)),
                                           ' × '.join(self.lean_ty(env.vars[k_][1], s) for k_ in keys) or 'Unit')
             val = ('jbind', 'seq' if mode == 'out' else 'bind', merged, names, rv)
             dfd = ('conj', [bd, ('ret', 'true') if is_true_blk(rd) else ('jand', merged, names, rd, fty)])
@@ -1115,8 +1350,9 @@ class ImpTranslator(FullTranslator):
                     rid = x['referencedDecl']['id']
                     if rid not in declared and rid not in ids and rid in env.vars:
                         ids.append(rid)
-        if env.fx.cell is not None and env.fx.cell not in ids and env.fx.cell in env.vars:
-            ids.append(env.fx.cell)
+        for sk in (env.fx.cell, env.fx.ostr):
+            if sk is not None and sk not in ids and sk in env.vars:
+                ids.append(sk)
         ids.sort(key=self.decl_offset)
         fuel = any(x.get('kind') in ('WhileStmt', 'ForStmt', 'DoStmt') for n in rest for x in walk(n))
         kenv = Env(None, extract=False)
@@ -1127,7 +1363,7 @@ class ImpTranslator(FullTranslator):
         params = []
         for rid in ids:
             ty = env.vars[rid][1]
-            if ty.kind not in ('int', 'bool', 'ptr', 'pptr'):
+            if ty.kind not in ('int', 'bool', 'ptr', 'pptr', 'ostr'):
                 self.bad(rest[0], 'variable of type %r live at a join point' % ty)
             nm = kenv.fresh(self.ix.by_id[rid].get('name') or 'v')
             kenv.vars[rid] = (nm, ty)
@@ -1135,7 +1371,7 @@ class ImpTranslator(FullTranslator):
         val, dfd = self.jblock(rest, kenv, fn, 'out', tail)
         env.buf = True
         sig = (' (fuel : Nat)' if fuel else '') + ' (buf : %sBuf)' % SEM + ''.join(' (%s : %s)' % (nm, self.lean_ty(ty, rest[0])) for rid, nm, ty in params)
-        st = 'Int' if env.fx.cell is not None else 'Unit'
+        st = self.state_ty_str(env.fx)
         ctx = {'eff': True}
         first = rest[0]
         first.setdefault('_file', fn.get('_file'))
@@ -1258,17 +1494,18 @@ class ImpTranslator(FullTranslator):
         for n in nodes:
             for x in walk(n):
                 k = x.get('kind')
-                if k in ('BreakStmt', 'ContinueStmt', 'GotoStmt', 'CXXTryStmt', 'LambdaExpr', 'CXXThisExpr'):
+                if k in ('ContinueStmt', 'GotoStmt', 'CXXTryStmt', 'LambdaExpr', 'CXXThisExpr'):
                     self.bad(x, '%s inside a loop body (join style)' % k)
-                exits = exits or k in self.EXIT_KINDS
+                exits = exits or k in self.EXIT_KINDS or (k == 'CallExpr' and self.calls_via(x, env))
                 if k == 'DeclRefExpr' and x['referencedDecl']['kind'] in ('VarDecl', 'ParmVarDecl'):
                     rid = x['referencedDecl']['id']
                     if rid in declared or rid in ids:
                         continue
                     if rid in env.vars or rid in env.free or (env.extract and self.is_local_decl(self.ix.by_id.get(rid))):
                         ids.append(rid)
-        if exits and env.fx.cell is not None and env.fx.cell not in ids and env.fx.cell in env.vars:
-            ids.append(env.fx.cell)
+        for sk in (env.fx.cell, env.fx.ostr):          # the state where the loop returns / throws / a callee throws
+            if exits and sk is not None and sk not in ids and sk in env.vars:
+                ids.append(sk)
         ids.sort(key=self.decl_offset)
         lenv = Env(None, extract=False)
         lenv.used = set(['self', 'fuel', 'buf'])
@@ -1285,7 +1522,7 @@ class ImpTranslator(FullTranslator):
                 d = self.ix.by_id[rid]
                 ty = self.ex({'kind': 'DeclRefExpr', 'referencedDecl': {'id': rid, 'kind': d['kind'], 'name': d.get('name')},
                               'type': d['type'], '_file': doc_node.get('_file'), '_line': doc_node.get('_line')}, env).ty
-            if ty.kind not in ('int', 'bool', 'ptr', 'pptr'):
+            if ty.kind not in ('int', 'bool', 'ptr', 'pptr', 'ostr'):
                 self.bad(doc_node, 'loop variable of type %r (join style)' % ty)
             nm = lenv.fresh(self.ix.by_id[rid].get('name') or 'v')
             lenv.vars[rid] = (nm, ty)
@@ -1294,7 +1531,23 @@ class ImpTranslator(FullTranslator):
         modified = [p_ for p_ in params if p_[0] in mkeys]
         if not modified:
             self.bad(doc_node, 'loop that modifies none of its variables')
-        c = self.ex(cond, lenv)
+        # prefix `++x` / `--x` inside the condition (`while (++length <= max_length)`): carried out at the top of every
+        # evaluation of the condition, which then reads the new value; the loop delivers the incremented variable
+        pre = self.find_cond_pre(cond, lenv)
+        prelets, predefd = [], []
+        for pn in pre:
+            a = self.assignment(pn, lenv)
+            if a is None or a[0] != 'set' or len(a[1]) != 1:
+                self.bad(pn, 'increment inside a loop condition')
+            r_, p_, v_ = a[1][0]
+            nm_, term_ = self.store(r_, p_, v_, lenv, pn)
+            prelets.append((nm_, self.lean_ty(lenv.vars[r_][1], pn), term_, a[2]))
+            lenv.hoisted[pn['id']] = True
+        try:
+            c = self.ex(cond, lenv)
+        finally:
+            for pn in pre:
+                lenv.hoisted.pop(pn['id'], None)
         if c.ty.kind != 'bool':
             self.bad(doc_node, 'loop condition is not of type bool')
         env.fx.fuel = True
@@ -1303,19 +1556,28 @@ class ImpTranslator(FullTranslator):
         def t_back(e2):
             a = ' fuel buf' + ''.join(' ' + e2.vars[rid][0] for rid, nm, ty in params)
             return ('ret', base + a), ('ret', base + '_defined' + a)
-        bval, bdfd = self.jblock(list(body), lenv.copy(), fn, 'flow', t_back)
-        ret = self.jtuple([m[1] for m in modified])
+
+        def t_break(e2):
+            return ('jnext', [e2.vars[m[0]][0] for m in modified]), ('ret', 'true')
+        benv = lenv.copy()
+        benv.brk = t_break
+        bval, bdfd = self.jblock(list(body), benv, fn, 'flow', t_back)
+        ret = self.jtuple([lenv.vars[m[0]][0] for m in modified])
         rty = ' × '.join(self.lean_ty(m[2], doc_node) for m in modified)
         sig = ' (fuel : Nat) (buf : %sBuf)' % SEM + ''.join(' (%s : %s)' % (nm, self.lean_ty(ty, doc_node)) for rid, nm, ty in params)
         area = self.area_of(fn)
         ctx = {'eff': True}
-        st = 'Int' if env.fx.cell is not None else 'Unit'
-        text = '%s\ndef %s%s : %sFlow %s (%s) «rho» :=\n  match fuel with\n  | 0 => .exit .nofuel\n  | fuel + 1 =>\n    if %s then\n%s\n    else\n      .next %s\n' % (
-            self.doc(doc_node, extra_doc), base, sig, SEM, st, rty, c.term, self.render(bval, 6, ctx), ret)
+        st = paren(self.state_ty_str(env.fx))
+        pl = ''.join('    let %s : %s := %s\n' % (nm_, lt_, term_) for nm_, lt_, term_, d_ in prelets)
+        text = '%s\ndef %s%s : %sFlow %s (%s) «rho» :=\n  match fuel with\n  | 0 => .exit .nofuel\n  | fuel + 1 =>\n%s    if %s then\n%s\n    else\n      .next %s\n' % (
+            self.doc(doc_node, extra_doc), base, sig, SEM, st, rty, pl, c.term, self.render(bval, 6, ctx), ret)
         dcond = (paren(c.defd) + ' && ') if c.defd else ''
         text += '/-- no undefined behaviour in the iterations that run within the fuel -/\n'
-        text += 'def %s_defined%s : Bool :=\n  match fuel with\n  | 0 => true\n  | fuel + 1 =>\n    %s(if %s then\n%s\n    else\n      true)\n' % (
-            base, sig, dcond, c.term, self.render(bdfd, 6, ctx))
+        pd = ''
+        for nm_, lt_, term_, d_ in prelets:
+            pd += ('    %s && (\n' % paren(d_) if d_ else '    (\n') + '    let %s : %s := %s\n' % (nm_, lt_, term_)
+        text += 'def %s_defined%s : Bool :=\n  match fuel with\n  | 0 => true\n  | fuel + 1 =>\n%s    %s(if %s then\n%s\n    else\n      true)%s\n' % (
+            base, sig, pd, dcond, c.term, self.render(bdfd, 6, ctx), ')' * len(prelets))
         text += '/-- every argument holds a value of its C++ type -/\n'
         typed = conj(*[self.typed_term(ty, nm) for rid, nm, ty in params]) or 'true'
         text += 'def %s_typed%s : Bool := %s' % (base, sig.replace(' (fuel : Nat)', '', 1), typed)
@@ -1331,6 +1593,38 @@ class ImpTranslator(FullTranslator):
         it.rho_of = fn.get('id')
         self.add(('loop', area, base), it)
         return it, params, modified
+
+    def calls_via(self, x, env):
+        """x is a call that hands over `&local` or an output string (its callee's exception carries the caller's state)"""
+        return any(a and (self.addr_of_local(a, env) is not None or self.ostr_var(a, env) is not None) for a in x.get('inner', [])[1:])
+
+    def find_cond_pre(self, cond, env):
+        """prefix ++/-- nodes inside a loop condition that are evaluated unconditionally and whose variable (a local integer)
+        occurs nowhere else in the condition"""
+        found = []
+
+        def go(n, cnd):
+            k = n.get('kind')
+            if k == 'UnaryOperator' and n.get('opcode') in ('++', '--'):
+                t = strip(n['inner'][0])
+                if n.get('isPostfix') or cnd or t.get('kind') != 'DeclRefExpr' or t['referencedDecl']['id'] not in env.vars or \
+                        env.vars[t['referencedDecl']['id']][1].kind != 'int' or 'id' not in n:
+                    self.bad(n, 'operator `%s` inside a loop condition (only an unconditionally evaluated prefix increment of a local integer)' % n['opcode'])
+                found.append((n, t['referencedDecl']['id']))
+                return
+            c2 = cnd or k in ('ConditionalOperator', 'BinaryConditionalOperator', 'LambdaExpr', 'StmtExpr')
+            for i_, c in enumerate(n.get('inner', []) or []):
+                if c:
+                    go(c, c2 or (k == 'BinaryOperator' and n.get('opcode') in ('&&', '||', ',') and i_ > 0))
+        go(cond, False)
+        out = []
+        for n, rid in found:
+            refs = [x for x in walk(cond) if x.get('kind') == 'DeclRefExpr' and x['referencedDecl']['id'] == rid]
+            q = (self.ix.by_id.get(rid) or {}).get('type', {}).get('qualType', '')
+            if len(refs) != 1 or '&' in q:
+                self.bad(n, 'the variable incremented inside the loop condition occurs elsewhere in it')
+            out.append(n)
+        return out
 
     @staticmethod
     def jtuple(names):
@@ -1361,6 +1655,12 @@ class ImpTranslator(FullTranslator):
                     if env.fx.cell is not None:
                         self.bad(p, 'two `const char**` parameters (they may alias)')
                     env.fx.cell = p['id']
+                if ty.kind == 'ostr':
+                    if env.fx.ostr is not None:
+                        self.bad(p, 'two output-string parameters (they may alias)')
+                    if not env.join:
+                        self.bad(p, 'output-string parameter in a function that is not translated in join style')
+                    env.fx.ostr = p['id']
         cparams = list(params)
         if d['kind'] == 'CXXConstructorDecl':
             val, dfd, ret = self.ctor_body(d, env, self_ty)
@@ -1427,7 +1727,7 @@ class ImpTranslator(FullTranslator):
             if p.get('kind') != 'ParmVarDecl':
                 continue
             dq = p['type'].get('desugaredQualType') or p['type'].get('qualType', '')
-            if '&' not in dq:
+            if '&' not in dq or is_ostr_type(dq):
                 continue
             ty = self.resolve(p['type'], p)
             if ty.kind != 'rec':
@@ -1455,6 +1755,7 @@ class ImpTranslator(FullTranslator):
         fuel = fx is not None and fx.fuel
         buf = fx is not None and fx.buf
         cell = fx is not None and fx.cell is not None
+        ostr = fx is not None and fx.ostr is not None
         ctx = {'eff': eff}
         psig = (' (buf : %sBuf)' % SEM if buf else '') + ''.join(' (%s : %s)' % (nm, self.lean_ty(ty, d)) for nm, ty in params)
         sig = (' (fuel : Nat)' if fuel else '') + psig
@@ -1466,11 +1767,14 @@ class ImpTranslator(FullTranslator):
             if getattr(it0, 'rho_of', None) == d.get('id') and '«rho»' in it0.text:
                 it0.text = it0.text.replace('«rho»', rho)
         if eff:
-            st = 'Int' if cell else (self.lean_ty(state_ty, d) if state_ty is not None else 'Unit')
+            st = self.state_ty_str(fx) if (cell or ostr) else (self.lean_ty(state_ty, d) if state_ty is not None else 'Unit')
             rt = '%s %s %s' % (OUT, paren(st), paren(rt))
         if cell:
             extra_doc += (' (state σ = the cursor cell `*%s`: the parameter is its value at the call, `.normal i r` / `.thrown e i` carry its '
                           'value when the call ends)' % [nm for nm, ty in params if ty.kind == 'pptr'][0])
+        if ostr:
+            extra_doc += (' (%sthe output string `%s` is part of the state σ: the parameter is its contents at the call, the outcome carries its '
+                          'contents when the call ends)' % ('' if cell else 'state σ: ', [nm for nm, ty in params if ty.kind == 'ostr'][0]))
         text = '%s\ndef %s%s : %s :=\n%s\n' % (self.doc(d, extra_doc), local, sig, rt, self.render(val, 2, ctx))
         text += '/-- no undefined behaviour (and exactness of integer-valued `double` arithmetic) on this input -/\n'
         text += 'def %s_defined%s : Bool :=\n%s\n' % (local, sig, self.render(dfd, 2, ctx).replace('«rho»', rho))
@@ -1479,7 +1783,7 @@ class ImpTranslator(FullTranslator):
         it = Item(area, local, text, 'fn', d, self.src.text(d))
         it.params, it.ret, it.defd_trivial, it.uses_self = params, ret, trivial, uses_self
         it.effectful, it.fuel, it.state_ty = eff, fuel, (state_ty if eff else None)
-        it.buf, it.cell = buf, cell
+        it.buf, it.cell, it.ostr = buf, cell, ostr
         it.cparams = [p for p in params if p[0] != 'self']
         return self.add(key if key is not None else (d['id'] if not extra_doc else ('x', local)), it)
 
@@ -1519,6 +1823,10 @@ class ImpTranslator(FullTranslator):
         if t == 'jbind':
             return '%s%sFlow.%s (\n%s) (fun %s =>\n%s)' % (p, SEM, b[1], self.render(b[2], ind + 2, ctx), self.jtuple(b[3]) if b[3] else '_',
                                                          self.render(b[4], ind, ctx))
+        if t == 'bindvia':
+            return '%s%s.bindVia (%s) (%s) (fun %s %s =>\n%s)' % (p, OUT, b[1], b[2], b[3], b[4], self.render(b[5], ind + 2, ctx))
+        if t == 'jcallvia':
+            return '%s%sFlow.callVia (%s) (%s) (fun %s %s =>\n%s)' % (p, SEM, b[1], b[2], b[3], b[4], self.render(b[5], ind + 2, ctx))
         if t == 'jcallf':
             return '%s%sFlow.call (%s) (fun %s %s =>\n%s)' % (p, SEM, b[1], b[2], b[3], self.render(b[4], ind + 2, ctx))
         if t == 'jand':
